@@ -22,12 +22,17 @@ type XSpec struct {
 	// mismatch (nil if the implementation agrees with the model everywhere),
 	// plus a canonical dump of the final state (may be empty).
 	Exec func(x *XSpec, s *vsched.Sched, hist []Op, wantDump bool) (*Mismatch, string)
+	// DeadEnd is set by Exec/ExecNode implementations through HistOutcome.Dead (see SetDead)
+	// ExecNode, if set, replaces the default "one scheduler run around Exec".
+	ExecNode func(x *XSpec, hist []Op, wantDump bool) HistOutcome
 	// Prune, if set, says that op may not follow hist (symmetry / redundancy).
 	Prune func(hist []Op, op Op) bool
 }
 
 // HistOutcome is the result of running one history under the scheduler.
 type HistOutcome struct {
+	Next    []Op // dynamically enabled letters offered in addition to the static alphabet
+	Dead    bool // the last letter had no effect by construction (e.g. refused GC request): do not extend
 	MM      *Mismatch
 	Dump    string
 	Aborted string
@@ -36,18 +41,36 @@ type HistOutcome struct {
 }
 
 func (x *XSpec) RunHistory(hist []Op, wantDump bool) HistOutcome {
+	if x.ExecNode != nil {
+		return x.ExecNode(x, hist, wantDump)
+	}
 	var out HistOutcome
+	deadEnd = false
+	nextOps = nil
 	res := vsched.Run(vsched.Opts{}, func(s *vsched.Sched) {
 		out.MM, out.Dump = x.Exec(x, s, hist, wantDump)
 	})
+	out.Dead = deadEnd
+	out.Next = nextOps
+	out.absorb(res, len(hist))
+	return out
+}
+
+// absorb turns an aborted scheduler run (fatal, panic, deadlock...) into a mismatch.
+func (out *HistOutcome) absorb(res *vsched.Result, step int) {
 	if res.Aborted != "" {
 		out.Aborted = res.Aborted
 		out.Msg = res.Msg
 		out.Stacks = res.Stacks
-		out.MM = &Mismatch{Step: len(hist), Op: "-", Where: "process", Want: "runs", Got: res.Aborted + ": " + res.Msg, Class: "process-" + res.Aborted}
+		out.MM = &Mismatch{Step: step, Op: "-", Where: "process", Want: "runs", Got: res.Aborted + ": " + res.Msg, Class: "process-" + res.Aborted}
 	}
-	return out
 }
+
+// deadEnd is set by an Exec function to say "do not extend this history".
+var deadEnd bool
+
+// nextOps is set by an Exec function: dynamically enabled letters for the children of this node.
+var nextOps []Op
 
 type xReplay struct {
 	Kind    string    `json:"kind"` // "xstate"
@@ -101,15 +124,19 @@ func (x *XSpec) Explore(r *Report, job *Job) {
 		// only shard 0 counts and reports them
 		report := depth >= sd || job.Shard == 0
 		extend := true
+		var dyn []Op
 		if !report {
-			if out := x.RunHistory(hist, false); out.MM != nil {
+			out := x.RunHistory(hist, false)
+			if out.MM != nil || out.Dead {
 				extend = false
 			}
+			dyn = out.Next
 		} else {
 			if r.Expired() {
 				return
 			}
 			out := x.RunHistory(hist, true)
+			dyn = out.Next
 			r.Count("evaluations", 1)
 			r.Count("transitions", int64(len(hist)))
 			if out.Dump != "" {
@@ -117,6 +144,10 @@ func (x *XSpec) Explore(r *Report, job *Job) {
 			}
 			if len(hist) == x.Depth {
 				r.Sample(map[string]interface{}{"config": x.Name, "history": HistString(hist)})
+			}
+			if out.Dead {
+				extend = false
+				r.Count("dead_ends", 1)
 			}
 			if out.MM != nil {
 				extend = false
@@ -135,7 +166,11 @@ func (x *XSpec) Explore(r *Report, job *Job) {
 		if !extend || depth == x.Depth {
 			return
 		}
-		for _, o := range x.Alphabet {
+		letters := x.Alphabet
+		if len(dyn) > 0 {
+			letters = append(append([]Op{}, x.Alphabet...), dyn...)
+		}
+		for _, o := range letters {
 			if x.Prune != nil && x.Prune(hist, o) {
 				continue
 			}
